@@ -168,6 +168,14 @@ func (x *Exec) unify(a, c *Val) (*Val, *Val) {
 }
 
 func (x *Exec) eval(ce *CEnv, e Expr) *Val {
+	v := x.eval1(ce, e)
+	if v != nil && x.exprTypes != nil {
+		x.exprTypes[e] = v.Typ
+	}
+	return v
+}
+
+func (x *Exec) eval1(ce *CEnv, e Expr) *Val {
 	switch n := e.(type) {
 	case *EInt:
 		return &Val{Typ: untypedInt, T: x.b.IntBig(n.V)}
@@ -667,7 +675,11 @@ func (x *Exec) evalCall(ce *CEnv, n *ECall) *Val {
 				for i, a := range n.Args {
 					args = append(args, x.coerce(x.eval(ce, a), sig.Params().At(i).Type()))
 				}
-				return x.applyFuncValue(x.asTerm(fv), sig, args)
+				ft := x.asTerm(fv)
+				if cl, ok := x.closures[ft.ID]; ok {
+					return x.specInlineClosure(ce, cl, args)
+				}
+				return x.applyFuncValue(ft, sig, args)
 			}
 		}
 		// Go function of the current package, or conversion
@@ -733,6 +745,26 @@ func (x *Exec) evalMethodCall(ce *CEnv, recv *Val, name string, argEs []Expr) *V
 				}
 				key := normalizeFuncName(m.FullName())
 				res := x.pureInvoke(key, x.asTerm(recv), m, args, sig.Results())
+				// ground instance of the method contract for this application
+				if _, mc := x.prog.ifaceMethod(m); mc != nil && ce.depth < 2 && res != nil {
+					rt := res.T
+					if rt == nil && len(res.Tup) > 0 {
+						rt = res.Tup[0].T
+					}
+					ikey := fmt.Sprintf("ifinst:%d:%d", rt.ID, ce.guardID())
+					if !rt.Bound && !x.ufDecl[ikey] {
+						x.ufDecl[ikey] = true
+						vars := map[string]*Val{"self": recv}
+						for k := 0; k < sig.Params().Len(); k++ {
+							vars[sig.Params().At(k).Name()] = args[k]
+						}
+						ce2 := &CEnv{x: x, st: ce.st, old: ce.st, vars: vars, guard: ce.guard, fc: mc, depth: ce.depth + 1, pkg: x.prog.pkgOfFile(mc.File), fr: ce.fr}
+						x.bindResults(ce2, sig, res)
+						for _, e := range mc.Ensures {
+							x.assume(ce.guard, x.evalBool(ce2, e))
+						}
+					}
+				}
 				return res
 			}
 		}
@@ -1005,6 +1037,32 @@ func (x *Exec) evalBuiltinSpec(ce *CEnv, name string, args []Expr) (*Val, bool) 
 		b := x.eval(ce, args[2])
 		a, b = x.unify(a, b)
 		return x.iteVal(c.T, a, b), true
+	case "asiface":
+		// asiface(p): the interface value holding pointer p (dynamic type = p's static type)
+		v := x.eval(ce, args[0])
+		return x.makeInterface(v, v.Typ, types.NewInterfaceType(nil, nil)), true
+	case "as":
+		// as(v, "T"): type assertion without check (value extraction)
+		v := x.eval(ce, args[0])
+		s, ok := args[1].(*EString)
+		if !ok {
+			cfail("as needs a string literal type")
+		}
+		t := x.prog.resolveType(x.pkgOf(ce), s.V)
+		if t == nil {
+			cfail("cannot resolve type %s", s.V)
+		}
+		vt := x.asTerm(v)
+		ref := x.b.App("i_ref", "Int", vt)
+		if vt.Op == "mk_iface" {
+			ref = vt.Args[1]
+		}
+		if _, isPtr := t.Underlying().(*types.Pointer); isPtr {
+			return &Val{Typ: t, T: ref}, true
+		}
+		so := x.so.SortOf(t)
+		x.declareUF("unbox_"+smt.Sanitize(so), []string{"Int"}, so)
+		return &Val{Typ: t, T: x.b.App("unbox_"+smt.Sanitize(so), so, ref)}, true
 	case "dyntype":
 		// dyntype(v, "pkg.Type"): v's dynamic type tag equals that of the named type
 		v := x.eval(ce, args[0])
@@ -1097,4 +1155,30 @@ func (x *Exec) lookupVarOnly(ce *CEnv, name string) *Val {
 		return v
 	}
 	return nil
+}
+
+func (ce *CEnv) guardID() int {
+	if ce.guard == nil {
+		return 0
+	}
+	return ce.guard.ID
+}
+
+// specInlineClosure evaluates a known closure inside a specification.
+func (x *Exec) specInlineClosure(ce *CEnv, cl *Val, args []*Val) *Val {
+	guard := ce.guard
+	if guard == nil {
+		guard = x.b.True
+	}
+	fr := ce.fr
+	if fr == nil {
+		fr = &Frame{fn: cl.Fn, cells: map[*ssa.Alloc]*cellKey{}}
+	}
+	bc := &blockCtx{fr: &Frame{fn: fr.fn, act: fr.act, prefix: "spec/", cells: fr.cells, depth: 1, safety: false}, reach: guard, st: ce.st.clone(), env: newEnv(nil)}
+	x.spec++
+	defer func() {
+		x.spec--
+		ce.st = bc.st
+	}()
+	return x.callStatic(bc, nil, cl.Fn, cl.Binds, args)
 }
